@@ -3,6 +3,7 @@
 //! never-notified edits and noise; see `run_c06`).
 
 use crate::assets::*;
+use crate::mem::{Hot, Mem};
 use crate::model::Key;
 use crate::reload::{CacheKind, Judge, Step, World, WorldCfg};
 use crate::rng::{fnv_str, mix, Rng};
@@ -354,6 +355,73 @@ fn fixed_shapes(rep: &mut Report, j: &Judge, static_mode: bool) {
 /// A burst of loads while the reloader is busy, followed at once by notified
 /// edits of the assets loaded last: the registrations of those assets are
 /// still queued when the notifications arrive.
+
+/// Changes that were notified but not yet applied when `enhance_hot_reloading`
+/// is called must be applied "by itself" afterwards: no further event follows.
+fn enhance_with_pending(rep: &mut Report, rng: &mut Rng, n: usize) {
+    use assets_manager::AssetCache;
+    for case in 0..n {
+        rep.eval();
+        let mem = Mem::new("c05e", Hot::Yes);
+        mem.set_logging(false);
+        let k = rng.range(1, 5);
+        for i in 0..k {
+            mem.write(&format!("e.l{i}"), "a", format!("v0-{i}").as_bytes());
+        }
+        mem.write("e.n", "n0", b"load L10t e.l0");
+        let cache: &'static AssetCache<Mem> = Box::leak(Box::new(AssetCache::with_source(mem.clone())));
+        let leaves: Vec<_> = (0..k).map(|i| cache.load::<Leaf<1, 0, true>>(&format!("e.l{i}")).expect("load leaf")).collect();
+        let node = cache.load::<Node<0>>("e.n").expect("load node");
+        // edits, all notified and received by the reloader; some are applied by an explicit
+        // hot_reload() before the switch, the later ones stay pending
+        let flush_before = rng.chance(1, 3);
+        let mut want: Vec<String> = (0..k).map(|i| format!("v0-{i}")).collect();
+        let rounds = rng.range(1, 3);
+        for r in 0..rounds {
+            for i in 0..k {
+                if i == 0 || rng.chance(1, 2) {
+                    want[i] = format!("v{}-{i}", r + 1);
+                    mem.write(&format!("e.l{i}"), "a", want[i].as_bytes());
+                    mem.notify_file(&format!("e.l{i}"), "a");
+                }
+            }
+            let sent = mem.sent();
+            if !crate::util::wait_until(60_000, || cache.verif_events_handled().is_some_and(|h| h >= sent)) {
+                rep.inconclusive("enhance-with-pending: event barrier watchdog");
+                return;
+            }
+            if flush_before && r + 1 < rounds {
+                cache.hot_reload();
+            }
+        }
+        cache.enhance_hot_reloading();
+        // FIFO barrier: this request is queued behind the switch to the 'static cache; in that
+        // mode it reloads nothing itself
+        cache.hot_reload();
+        let scen = json!({"shape": "changes pending at enhance_hot_reloading", "case": case, "leaves": k, "rounds": rounds,
+            "hot_reload_between_rounds": flush_before,
+            "steps": "load all; edit + notify (received by the reloader); enhance_hot_reloading(); no further event"});
+        let mut stale = vec![];
+        for (i, h) in leaves.iter().enumerate() {
+            let fresh = V::Leaf { ext: "a".into(), len: want[i].len(), hash: content_hash(want[i].as_bytes()) };
+            let got = h.read().v.clone();
+            if got != fresh {
+                stale.push(json!({"id": format!("e.l{i}"), "cached": format!("{got:?}"), "fresh": format!("{fresh:?}")}));
+            }
+        }
+        let fresh0 = V::Leaf { ext: "a".into(), len: want[0].len(), hash: content_hash(want[0].as_bytes()) };
+        let got = node.read().trace.first().cloned();
+        if got.as_ref() != Some(&fresh0) {
+            stale.push(json!({"id": "e.n", "cached_snapshot_of_e.l0": format!("{got:?}"), "fresh": format!("{fresh0:?}")}));
+        }
+        if !stale.is_empty() {
+            rep.violation("stale-after-enhance", "C05/stale-after-pass:pending-at-enhance", json!({"stale": stale}), scen);
+        }
+        rep.count("enhance_with_pending_cases", 1);
+        rep.nontrivial(mix(0xe4a, mix(case as u64, k as u64)));
+    }
+}
+
 fn burst_shape(rep: &mut Report, j: &Judge, static_mode: bool, n: usize) {
     let mut w = World::new(&WorldCfg { caches: vec![CacheKind::Hot], static_mode, content_mode: 0 });
     w.tag = json!({"shape": "burst", "loads": n});
@@ -441,6 +509,97 @@ fn concurrent_pollers(rep: &mut Report, rounds: usize) {
         rep.count("concurrent_poll_rounds", 1);
         rep.nontrivial(mix(0xc06, r as u64));
     }
+}
+
+
+/// A reader that keeps a guard alive while another thread is inside `hot_reload`: nothing
+/// may report the reload before the rewrite has happened (the rewrite needs the guard to
+/// go away), and afterwards it is reported exactly once with the new value in place.
+fn guarded_poller(rep: &mut Report, rounds: usize) {
+    use assets_manager::AssetCache;
+    use std::sync::atomic::{AtomicBool, Ordering::SeqCst};
+    let mem = Mem::new("c06g", Hot::Yes);
+    mem.write("p", "a", b"p0");
+    let cache = AssetCache::with_source(mem.clone());
+    let h = cache.load::<Leaf<1, 0, true>>("p").expect("load p");
+    let mut watcher = h.reload_watcher();
+    let _ = watcher.reloaded();
+    let _ = h.reloaded_global();
+    let inside = AtomicBool::new(false);
+    let returned = AtomicBool::new(false);
+    // One scope around all rounds: the guard lives in a local of the closure. (A guard that is
+    // moved into a closure and dropped there keeps its `&T` protected as a function argument
+    // until the closure returns - Stacked Borrows would then flag the reload that follows the
+    // drop, which is a matter of how the harness is written, not of the property.)
+    std::thread::scope(|s| {
+        for r in 0..rounds {
+            rep.eval();
+            let old = format!("p{r}");
+            let new = format!("p{}", r + 1);
+            let guard = h.read();
+            let rid0 = crate::scen::rid_num(h.last_reload_id());
+            mem.write("p", "a", new.as_bytes());
+            mem.notify_file("p", "a");
+            let sent = mem.sent();
+            if !crate::util::wait_until(if cfg!(miri) { 600_000 } else { 120_000 }, || cache.verif_events_handled() == Some(sent)) {
+                rep.inconclusive("guarded_poller: barrier watchdog");
+                return;
+            }
+            inside.store(false, SeqCst);
+            returned.store(false, SeqCst);
+            let caller = s.spawn(|| {
+                inside.store(true, SeqCst);
+                cache.hot_reload();
+                returned.store(true, SeqCst);
+            });
+            while !inside.load(SeqCst) {
+                std::thread::yield_now();
+            }
+            // the call cannot finish while the guard is alive; poll what a reader can see
+            let mut early: Option<serde_json::Value> = None;
+            let polls = if cfg!(miri) { 40 } else { 1500 };
+            for i in 0..polls {
+                let w = watcher.reloaded();
+                let g = h.reloaded_global();
+                let rid = crate::scen::rid_num(h.last_reload_id());
+                let still_old = guard.v == V::Leaf { ext: "a".into(), len: old.len(), hash: content_hash(old.as_bytes()) };
+                if w || g || rid != rid0 || !still_old || returned.load(SeqCst) {
+                    early = Some(json!({"poll": i, "watcher_reloaded": w, "reloaded_global": g, "reload_id": [rid0, rid],
+                        "value_under_the_guard_is_still_the_old_one": still_old, "hot_reload_returned": returned.load(SeqCst)}));
+                    break;
+                }
+                std::thread::yield_now();
+                if i % 100 == 99 {
+                    crate::util::spin(2_000);
+                }
+            }
+            drop(guard);
+            let _ = caller.join();
+            let scen = json!({"kind": "reader holding a guard while another thread is inside hot_reload", "round": r});
+            if let Some(e) = early {
+                rep.violation("reported-before-rewrite", "C06/reload-reported-before-the-rewrite", e, scen);
+                return;
+            }
+            // afterwards: exactly one report, the new value, id + 1
+            let w1 = watcher.reloaded();
+            let w2 = watcher.reloaded();
+            let g1 = h.reloaded_global();
+            let g2 = h.reloaded_global();
+            let rid = crate::scen::rid_num(h.last_reload_id());
+            let now_new = h.read().v == V::Leaf { ext: "a".into(), len: new.len(), hash: content_hash(new.as_bytes()) };
+            if !(w1 && !w2 && g1 && !g2 && rid == rid0 + 1 && now_new) {
+                rep.violation(
+                    "report-after-rewrite",
+                    "C06/reload-not-reported-exactly-once",
+                    json!({"watcher": [w1, w2], "reloaded_global": [g1, g2], "reload_id": [rid0, rid], "new_value_in_place": now_new}),
+                    scen,
+                );
+                return;
+            }
+            rep.count("guarded_poll_rounds", 1);
+            rep.nontrivial(mix(0xc06a, r as u64));
+        }
+    });
 }
 
 /// End to end on the real filesystem source and its OS watcher: edits on disk,
@@ -567,12 +726,17 @@ fn run_with(args: &Args, judge: Judge, silent: bool, rule: &str) -> Report {
         }
         burst_shape(&mut rep, &judge, false, 120);
     }
+    if !silent && judge.values {
+        let mut r = rng.sub(0xe4);
+        enhance_with_pending(&mut rep, &mut r, if miri { 1 } else { args.n(20, 200) });
+    }
     if !silent && !miri && judge.values {
         let mut r = rng.sub(0xf5);
         real_filesystem(&mut rep, &mut r, args.n(6, 60));
     }
     if silent {
         concurrent_pollers(&mut rep, if miri { 3 } else { args.n(1_500, 20_000) });
+        guarded_poller(&mut rep, if miri { 2 } else { args.n(300, 5_000) });
     }
     let nhist = if miri { args.n(2, 6) } else { args.n(250, 4_000) };
     let mut multi_total = 0;
